@@ -9,8 +9,8 @@ type `S` and the same operation vocabulary (`OpRef Gen.Cls`) as the generated ta
 compared cell by cell (`MsqProofs/Props/C05.lean`: `C05.agree_cfgN`, for every state and every character code).
 
 * `Spec.cell bits s c` / `Spec.atEnd bits s` — what the grammar says;
-* `Spec.devs` / `Spec.deviations` — the cells on which the CODE departs from that, each with the code's behaviour,
-  a representative and a one-line judgement;
+* `Spec.devsOf` / `Spec.deviations` — the cells on which the CODE departs from that, state by state, each with the
+  code's behaviour, a representative and a one-line judgement (HARMLESS / KNOWN finding / CANDIDATE defect);
 * `Spec.cellD` / `Spec.atEndD` — `cell` / `atEnd` overridden on exactly those cells.
 
 `bits = 4·IGNORE_SPACE + 2·IGNORE_LINEBREAK + IGNORE_COMMENT` as in `Gen.CfgN`.
@@ -18,8 +18,8 @@ compared cell by cell (`MsqProofs/Props/C05.lean`: `C05.agree_cfgN`, for every s
 Characters are Unicode code points (`Nat`); the end of the text is the pseudo code `Spec.endCode = 0x110000`.
 
 What the state space cannot express (so no cell can be said to deviate, listed in `Spec.notExpressible`): a decimal
-literal that begins with the point (`.5`), an exponent (`1e5`), and the requirement of at least one digit after
-`0x` / `0b` / `1.`.
+literal that begins with the point (`.5`), an exponent (`1e5`), the requirement of at least one digit after
+`0x` / `0b` / `1.`, and the kind of the open bracket (`(a]`: the bracket stack lives in the micro-code).
 -/
 namespace Spec
 open Lex
@@ -378,12 +378,14 @@ def devsReal : Bool :=
 /-- Departures of the code from the grammar that are NOT cells of the automaton (the state space has no place for
 them): (input, what happens, what the grammar suggests). -/
 def notExpressible : List (String × String × String) :=
-  [ (".5", "two tokens `.` and `5`", "one decimal literal (there is no state 'after a leading point')"),
-    ("1e5", "see the cells IN_INT × word character", "one decimal literal (there is no exponent state)"),
-    ("1.", "one LITERAL_FLOAT token `1.`", "harmless: MySQL reads `1.` as a decimal literal"),
-    ("0x ", "one LITERAL_HEX token `0x`", "at least one hex digit (IN_HEX_LITERAL_AFTER_0X does not know whether a digit was read)"),
-    ("0b ", "one LITERAL_BIT token `0b`", "at least one binary digit"),
-    ("x'1'", "one LITERAL_HEX token", "harmless: MySQL wants an even number of hex digits; the property does not say so") ]
+  [ (".5", "two tokens `.` and `5`", "KNOWN one decimal literal (there is no state 'after a leading point')"),
+    ("1e5", "one NAME word (see the cells IN_INT × word character)", "KNOWN one decimal literal (there is no exponent state)"),
+    ("1.5e3", "rejected (see the cells IN_FLOAT × word character)", "KNOWN one decimal literal"),
+    ("1.", "one LITERAL_FLOAT token `1.`", "HARMLESS MySQL reads `1.` as a decimal literal"),
+    ("0x", "one LITERAL_HEX token `0x`", "KNOWN at least one hex digit (IN_HEX_LITERAL_AFTER_0X does not know whether a digit was read)"),
+    ("0b", "one LITERAL_BIT token `0b`", "KNOWN at least one binary digit"),
+    ("x'1'", "one LITERAL_HEX token", "HARMLESS MySQL wants an even number of hex digits; the property does not say so"),
+    ("(a]", "accepted, one group of the closing bracket's kind", "KNOWN rejected: the bracket stack lives in the micro-code, not in the cells (F-C04-1)") ]
 
 /-! ## The specification as a lexer: same micro-code, same driver, cells from `cellD` -/
 
